@@ -9,7 +9,6 @@ package patchvalidator
 import (
 	"fmt"
 
-	"github.com/trustbloc/sidetree-go/pkg/document"
 	"github.com/trustbloc/sidetree-go/pkg/patch"
 )
 
@@ -29,10 +28,10 @@ func (v *RemoveServicesValidator) Validate(p patch.Patch) error {
 		return err
 	}
 
-	genericArr, err := getRequiredArray(value)
+	ids, err := getRequiredStringArray(value)
 	if err != nil {
 		return fmt.Errorf("invalid remove services value: %s", err.Error())
 	}
 
-	return validateIds(document.StringArray(genericArr))
+	return validateIds(ids)
 }
